@@ -76,7 +76,7 @@ def emit(vf, ext="opaque", types="defs", script_context=SCRIPT_CONTEXT_MIN, term
         vf.item(EXT, "struct:TimelockInfo")
         vf.item(EXT, "struct:SatData")
         vf.item(EXT, "struct:ExtData")
-    else:
+    elif ext == "opaque":
         vf.raw("struct ExtData { opaque: u8 }\n")
     # Threshold: real struct + accessors
     vf.item(THRESH, "struct:Threshold", rewrites=[sub("derive-off", r"#\[derive\([^)]*\)\]\s*", "", required=False)])
